@@ -69,26 +69,26 @@ func (s *State) clone() *State {
 }
 
 type Obligation struct {
-	Name   string
-	Kind   string // post inv-init inv-pres call-pre guard safety fieldguard lemma const cover decreases
-	Fn     string
-	NHyps  int // number of hypotheses (prefix of fc.hyps) in force
-	Reach  *Term
-	Goal   *Term
-	Where  string
-	Text   string
-	fc     *FnCtx
-	Extra  []*Term // additional hypotheses specific to the obligation
-	Cover  bool    // satisfiable expected (vacuity check)
+	Name  string
+	Kind  string // post inv-init inv-pres call-pre guard safety fieldguard lemma const cover decreases
+	Fn    string
+	NHyps int // number of hypotheses (prefix of fc.hyps) in force
+	Reach *Term
+	Goal  *Term
+	Where string
+	Text  string
+	fc    *FnCtx
+	Extra []*Term // additional hypotheses specific to the obligation
+	Cover bool    // satisfiable expected (vacuity check)
 }
 
 type loopInfo struct {
-	head    *ssa.BasicBlock
-	blocks  map[*ssa.BasicBlock]bool
-	ordinal int
-	pos     token.Pos
-	modCells map[*ssa.Alloc]bool
-	modKeys  map[string]bool
+	head      *ssa.BasicBlock
+	blocks    map[*ssa.BasicBlock]bool
+	ordinal   int
+	pos       token.Pos
+	modCells  map[*ssa.Alloc]bool
+	modKeys   map[string]bool
 	headState *State // state right after havoc (per pass)
 }
 
@@ -111,44 +111,44 @@ type FnCtx struct {
 	loopList []*loopInfo
 	changed  bool // modsets changed in this pass
 
-	unsupported []string
-	notes       map[string]bool // assumptions noted
-	params      []*Term
-	paramVals   map[string]Val
-	pureMode    bool
-	retStates   []*State
-	retVals     [][]Val
-	exit        *State
-	exitVals    []Val
-	defers      []*deferRec
-	calleesUsed map[string]bool
-	cellNames   map[string][]*ssa.Alloc
-	curBlock    *ssa.BasicBlock
-	curInstr    ssa.Instruction
-	escapedRoots []string
-	covers      map[string]*Term
+	unsupported   []string
+	notes         map[string]bool // assumptions noted
+	params        []*Term
+	paramVals     map[string]Val
+	pureMode      bool
+	retStates     []*State
+	retVals       [][]Val
+	exit          *State
+	exitVals      []Val
+	defers        []*deferRec
+	calleesUsed   map[string]bool
+	cellNames     map[string][]*ssa.Alloc
+	curBlock      *ssa.BasicBlock
+	curInstr      ssa.Instruction
+	escapedRoots  []string
+	covers        map[string]*Term
 	fieldGuardsOn bool
-	guardCount  map[string]int
-	globalsNoted map[string]bool
-	iters       map[*ssa.Range]*rangeIter
-	pureDefs    map[*ssa.Function]*pureDef
-	edges       map[[2]int]*Term
-	litText     map[*Term]string
-	oblNames    map[string]int
-	finalVals   map[string]envVar
-	calledNames map[string]bool // names used in called("...") expressions of this function's contract
-	calledPairs map[[2]string]bool
-	calledWith  map[string]calledWithSpec
-	eptr        map[string]types.Type // element sorts for which pointers to slice elements are created in this function
-	eptrLeaked  map[string]bool
-	curClosure  *Closure // closure being called by contract (for naming its captured variables)
-	strIters    map[*ssa.Range]*Term // strings ranged over by rune
-	loopDefer   bool // some defer statement sits inside a loop
-	splitSpec   bool // a contract of this function uses splitCount/splitPart: strings.Split gets its axiomatic model
-	staleGuards map[string]string // guard clauses that could not be elaborated at some site (clause -> message)
-	defineDepth int
-	defInfos    map[string]*defineInfo
-	curCall     *ssa.CallCommon // the call being modelled by a library model
+	guardCount    map[string]int
+	globalsNoted  map[string]bool
+	iters         map[*ssa.Range]*rangeIter
+	pureDefs      map[*ssa.Function]*pureDef
+	edges         map[[2]int]*Term
+	litText       map[*Term]string
+	oblNames      map[string]int
+	finalVals     map[string]envVar
+	calledNames   map[string]bool // names used in called("...") expressions of this function's contract
+	calledPairs   map[[2]string]bool
+	calledWith    map[string]calledWithSpec
+	eptr          map[string]types.Type // element sorts for which pointers to slice elements are created in this function
+	eptrLeaked    map[string]bool
+	curClosure    *Closure             // closure being called by contract (for naming its captured variables)
+	strIters      map[*ssa.Range]*Term // strings ranged over by rune
+	loopDefer     bool                 // some defer statement sits inside a loop
+	splitSpec     bool                 // a contract of this function uses splitCount/splitPart: strings.Split gets its axiomatic model
+	staleGuards   map[string]string    // guard clauses that could not be elaborated at some site (clause -> message)
+	defineDepth   int
+	defInfos      map[string]*defineInfo
+	curCall       *ssa.CallCommon // the call being modelled by a library model
 }
 
 type deferRec struct {
@@ -402,8 +402,8 @@ func (fc *FnCtx) execAll() {
 	}
 	// topological order ignoring back edges
 	order := fc.topoOrder()
-	out := map[*ssa.BasicBlock]*State{}            // state at end of block
-	edge := map[[2]int]*Term{} // (from,to) -> edge condition incl. reach
+	out := map[*ssa.BasicBlock]*State{} // state at end of block
+	edge := map[[2]int]*Term{}          // (from,to) -> edge condition incl. reach
 	fc.edges = edge
 	for _, b := range order {
 		var in *State
